@@ -159,7 +159,7 @@ DEPENDS = {
     'C08': ['C01'],
     'C03': ['C02'],                 # visit order presupposes the configured walk
     'C18': ['C02'],
-    'C07': ['C05'],                 # xargs -0 splitting
+    'C07': ['C05', 'C04'],          # xargs -0 splitting; "delivers every matched path exactly once" presupposes the batching and its cost model
     'C20': ['C05'],
     'C06': ['C04'],
 }
